@@ -17,6 +17,7 @@ limitations under the License.
 package utils
 
 import (
+	"bytes"
 	"unicode/utf8"
 )
 
@@ -33,5 +34,6 @@ func IsPrintablePostgresqlString(data []byte) bool {
 	if len(data) == 0 {
 		return true
 	}
-	return utf8.Valid(data)
+	// a zero byte cannot be part of a PostgreSQL string (and would cut the literal short when the statement is printed)
+	return utf8.Valid(data) && bytes.IndexByte(data, 0) < 0
 }
